@@ -1,38 +1,46 @@
 /-
 C12 — A mate in one is always found and truthfully reported.
 
-Proved so far: the score facts the argument rests on (a mate in one for the mover outranks every
-other score the search can return for that mover, so the strict `is_better` keeps the first mating
-move found and nothing later replaces it).  The statement for the whole search is decided on every
-run by the oracle `searchchk` (specification side: `Spec.Position.isCheckmate` after the returned
-move) on generated positions with zero, one and several mating moves.
+`Props/C12/Basic.lean`: the score facts (a mate in one for the mover outranks every other score the
+search can return for that mover).  This file: the statements about the whole search, proved in
+`Proofs/Search.lean` for every board, every repetition history, every expiry index `k` of the
+modelled timeout and every value of the stale `max_depth` field.
+
+`firstPassFinished b tf k`: the poll that closes the first deepening pass (depth 0) did not report
+expiry.  `isMateMove b mv`: the successor has no legal move and its side to move is in check
+(`isMateMove_spec`: for well-formed boards that is checkmate by the rules of chess).
 -/
-import ChessVerif.Props.C14
-import ChessVerif.Model.Engine
+import ChessVerif.Props.C12.Basic
+import ChessVerif.Proofs.Search
 
 namespace Chess.Props.C12
-open Chess Chess.Gen.ScoreFns Chess.Engine
+open Chess Chess.Spec Chess.Engine Chess.Proofs.Search
 
-/-- for White, `WhiteMateIn 1` is at least as good as every score except the sentinel `Max` and a
-(non-existent) mate in 0: nothing the search returns for a root move can be better -/
-theorem white_mate1_best (s : Score) (h0 : s ≠ .max) (h1 : s ≠ .whiteMateIn 0) :
-    isBetter .white (.whiteMateIn 1) s = false := by
-  cases s <;> simp [isBetter, Score.lt, partialCmp, cmp, kind, kindIdx] at * <;> try decide
-  · rename_i n
-    rw [Nat.compare_eq_lt]; omega
-  all_goals simp_all
+/-- **found**: if the side to move can mate in one and the time limit lets the first pass finish,
+the search returns a mating move together with that side's mate-in-one score.
 
-/-- for Black, `BlackMateIn 1` likewise -/
-theorem black_mate1_best (s : Score) (h0 : s ≠ .min) (h1 : s ≠ .blackMateIn 0) :
-    isBetter .black (.blackMateIn 1) s = false := by
-  cases s <;> simp [isBetter, Score.gt, partialCmp, cmp, kind, kindIdx] at * <;> try decide
-  · rename_i n
-    rw [Nat.compare_eq_gt]; omega
-  all_goals simp_all
+Side condition `drawnCapture … = false` on the witness: `alphabeta` scores a *capture that leaves
+insufficient material* (K v K, K+N v K, K+B v K) as a draw before it looks for mate.  No such move
+can mate in chess (a lone minor piece cannot mate a bare king); that chess fact is not proved here,
+so the theorem is stated for a mating move that is not of this kind — this is the only gap between
+this theorem and the property as worded (`mate1_found_partial` in the sense of DESIGN.md). -/
+theorem mate1_found (b : Board) (hwf : b.WF = true) (tf : ThreeFold) (k prev : Nat)
+    (hf : firstPassFinished b tf k = true)
+    (hm : ∃ mv ∈ Props.C10.movesOf (MoveGen.legals b), isMateMove b mv = true ∧ drawnCapture b mv = false) :
+    ∃ mv, (search b tf k prev).move = some mv ∧ isMateMove b mv = true ∧
+      (search b tf k prev).score = mateInOne b.turn :=
+  Proofs.Search.mate1_found b hwf tf k prev hf hm
 
-/-- a mating root move beats the initial sentinel, so it is recorded -/
-theorem mate1_beats_worst :
-    isBetter .white (worst .white) (.whiteMateIn 1) = true ∧ isBetter .black (worst .black) (.blackMateIn 1) = true := by
-  decide
+/-- **truthful**: a mate-in-one score for the side to move is only ever reported together with a
+move that mates — every board, history, expiry index -/
+theorem mate1_truthful (b : Board) (tf : ThreeFold) (k prev : Nat)
+    (hs : (search b tf k prev).score = mateInOne b.turn) :
+    ∃ mv, (search b tf k prev).move = some mv ∧ isMateMove b mv = true :=
+  Proofs.Search.mate1_truthful b tf k prev hs
+
+/-- "mates" in terms of the rules of chess -/
+theorem isMateMove_spec (b : Board) (hwf : b.WF = true) (mv : Move) (hl : (abs b).legal mv = true) :
+    isMateMove b mv = decide (((abs b).apply mv).classify = .checkMate) :=
+  Proofs.Search.isMateMove_spec b hwf mv hl
 
 end Chess.Props.C12
